@@ -40,6 +40,15 @@ Theorem C09_returns_partial : forall c s i k,
 Proof. exact CallLifeProofs.returns_partial. Qed.
 Print Assumptions C09_returns_partial.
 
+(* ... with the wait for connLock made explicit (the "position in the dial queue"): k_w = how many dials of other calls
+   ended while this call waited for connLock; every one of them costs at most one DialTimeout.  The bound is attained by
+   the witness of C09_returns_refuted_stalled_dial (Example position_bound_attained). *)
+Theorem C09_returns_position : forall c s i k,
+  0 < writeT c -> reach c s -> nth_error (calls s) i = Some k -> k_pc k = Returned ->
+  k_ret k <= N.max (k_dl k) (k_start k + (k_w k + (if k_d k then 1 else 0)) * dialT c + (if k_e k then writeT c else 0)).
+Proof. exact CallLifeProofs.returns_position. Qed.
+Print Assumptions C09_returns_position.
+
 (* the property's bound holds for every call that got connLock at once and found room in the send queue ... *)
 Theorem C09_returns_uncontended : forall c s i k,
   0 < writeT c -> reach c s -> nth_error (calls s) i = Some k -> k_pc k = Returned ->
@@ -80,12 +89,31 @@ Theorem C09_idle_close_inert : forall c s s', step c s LIdleClose = Some s' ->
 Proof. exact CallLifeProofs.idle_close_inert. Qed.
 Print Assumptions C09_idle_close_inert.
 
+(* every close of a connection - of the current one, or a stale close by a goroutine of an earlier connection - takes
+   connLock and gives it back; the stale close changes nothing else *)
+Theorem C09_close_releases_lock : forall c s l s', l = LConnDown \/ l = LCloseOld -> step c s l = Some s' ->
+  lock s = None /\ lock s' = None /\ calls s' = calls s /\ (forall p, queueLen s' p = queueLen s p) /\ invokeNum s' = invokeNum s /\
+  resp s' = resp s /\ sendq s' = sendq s /\ (l = LCloseOld -> conn_open s' = conn_open s).
+Proof. exact CallLifeProofs.close_releases_lock. Qed.
+Print Assumptions C09_close_releases_lock.
+
 (* the bounds above are not vacuous: the model never blocks the clock for good (finitely many local steps, no tick, lead
    to a state in which the clock can tick) *)
 Theorem C09_no_timelock : forall c s, exists ls s',
   run c s ls = Some s' /\ now s' = now s /\ ~ In Tick ls /\ step c s' Tick <> None.
 Proof. exact CallLifeProofs.no_timelock. Qed.
 Print Assumptions C09_no_timelock.
+
+(* the effective timeout the model's calls start with is derived in the model from the three sources TarsInvoke reads *)
+Theorem C09_eff_caller_deadline_wins : forall p pc d, eff_of (mktmo p pc (Some d)) = d.
+Proof. exact CallLifeProofs.eff_caller_deadline_wins. Qed.
+Print Assumptions C09_eff_caller_deadline_wins.
+Theorem C09_eff_percall_over_proxy : forall p q, eff_of (mktmo p (Some q) None) = Z.to_N q.
+Proof. exact CallLifeProofs.eff_percall_over_proxy. Qed.
+Print Assumptions C09_eff_percall_over_proxy.
+Theorem C09_eff_nonpositive_expired : forall t, t_ctx t = None -> (configured t <= 0)%Z -> eff_of t = 0.
+Proof. exact CallLifeProofs.eff_nonpositive_expired. Qed.
+Print Assumptions C09_eff_nonpositive_expired.
 
 (* ---------- clause 2: the result is the reply, an error, or the timeout error ---------- *)
 Theorem C09_outcome : forall c s i k, reach c s -> nth_error (calls s) i = Some k -> k_pc k = Returned ->
@@ -95,36 +123,60 @@ Theorem C09_outcome : forall c s i k, reach c s -> nth_error (calls s) i = Some 
     | Timeout => k_dl k <= k_ret k
     | Error => ~ In i (sendq s) /\ ~ In i (wire s)
     | Sent => k_ow k = true /\ (In i (sendq s) \/ In i (wire s))
+    | Cancelled => True
     end.
 Proof. exact CallLifeProofs.outcome_classes. Qed.
 Print Assumptions C09_outcome.
 
 (* ---------- clause 3: nothing is left behind ---------- *)
-(* at every reachable state the three values are functions of where the callers stand *)
+(* at every reachable state the three values are functions of where the callers stand.  The counter and the table are
+   moved by separate instructions: [counted] = between AddInt32(&queueLen, 1) and the deferred AddInt32(-1), [inside] =
+   between resp.Store and the deferred resp.Delete, [invoked] = between preInvoke and postInvoke.  queueLen belongs to the
+   ServantProxy the call was made on ([queueLen s p], [counted_by p] = counted and made on proxy p): several proxies for one
+   object share the endpoint manager (invokeNum) and its adapters (the table), each keeps its own queueLen *)
 Theorem C09_restored : forall c s, reach c s ->
-  queueLen s = cnt inside (calls s) /\ invokeNum s = cnt invoked (calls s) /\
+  (forall p, queueLen s p = cnt (counted_by p) (calls s)) /\ invokeNum s = cnt invoked (calls s) /\
   (forall i, In i (resp s) <-> inside_at (calls s) i) /\ NoDup (resp s).
 Proof. exact CallLifeProofs.restored_counts. Qed.
 Print Assumptions C09_restored.
 
+(* each queueLen has one owner: only the registration / cleanup of a call made on proxy p moves queueLen of p, by +1 / -1 *)
+Theorem C09_counter_owner : forall c s l s', step c s l = Some s' ->
+  forall p, queueLen s' p <> queueLen s p ->
+  exists i k, nth_error (calls s) i = Some k /\ k_px k = p /\
+    ((l = LCount i /\ queueLen s' p = (queueLen s p + 1)%Z) \/ (l = LUncount i /\ queueLen s' p = (queueLen s p - 1)%Z)).
+Proof. exact CallLifeProofs.counter_owner. Qed.
+Print Assumptions C09_counter_owner.
+
 Theorem C09_restored_quiescent : forall c s, reach c s ->
   (forall i k, nth_error (calls s) i = Some k -> k_pc k = Init \/ k_pc k = Returned) ->
-  queueLen s = 0%Z /\ invokeNum s = 0%Z /\ resp s = [].
+  (forall p, queueLen s p = 0%Z) /\ invokeNum s = 0%Z /\ resp s = [].
 Proof. exact CallLifeProofs.restored_quiescent. Qed.
 Print Assumptions C09_restored_quiescent.
 
 Theorem C09_restored_no_call_inside : forall c s, reach c s ->
-  (forall i k, nth_error (calls s) i = Some k -> inside k = false) -> queueLen s = 0%Z /\ resp s = [].
+  (forall i k, nth_error (calls s) i = Some k -> in_doInvoke k = false) -> (forall p, queueLen s p = 0%Z) /\ resp s = [].
 Proof. exact CallLifeProofs.restored_no_call_inside. Qed.
 Print Assumptions C09_restored_no_call_inside.
 
 Theorem C09_restored_per_call : forall c s1 s2 i k1 k2, reach c s1 -> reach c s2 ->
   length (calls s1) = length (calls s2) ->
   (forall j a b, j <> i -> nth_error (calls s1) j = Some a -> nth_error (calls s2) j = Some b -> k_pc a = k_pc b) ->
+  (forall j a b, nth_error (calls s1) j = Some a -> nth_error (calls s2) j = Some b -> k_px a = k_px b) ->
   nth_error (calls s1) i = Some k1 -> k_pc k1 = Init -> nth_error (calls s2) i = Some k2 -> k_pc k2 = Returned ->
-  queueLen s1 = queueLen s2 /\ invokeNum s1 = invokeNum s2 /\ (forall j, In j (resp s1) <-> In j (resp s2)).
+  (forall p, queueLen s1 p = queueLen s2 p) /\ invokeNum s1 = invokeNum s2 /\ (forall j, In j (resp s1) <-> In j (resp s2)).
 Proof. exact CallLifeProofs.restored_per_call. Qed.
 Print Assumptions C09_restored_per_call.
+
+(* THE LEDGER OF A CALL, over all outcomes (reply, timeout, cancellation by the caller, error from a refused / timed-out
+   dial, from the enqueue timeout, from a full invoke queue, from a rejecting client filter, one-way): once the call has
+   returned it has no table entry, is counted in neither counter, does not hold connLock, none of its timers can act, and
+   a receiver that still holds its reply channel is released within ReadTimeout and cannot deliver.  (A panic inside a
+   client filter ends the process through TarsInvoke's CheckPanic: there is nothing to restore.) *)
+Theorem C09_ledger_all_outcomes : forall c s i k, reach c s -> nth_error (calls s) i = Some k -> k_pc k = Returned ->
+  (exists o, k_out k = Some o) /\ (forall o, k_out k = Some o -> ledger_clear c s i).
+Proof. exact CallLifeProofs.ledger_all_outcomes. Qed.
+Print Assumptions C09_ledger_all_outcomes.
 
 (* ---------- clause 4: a reply that arrives later is discarded without affecting any other call ---------- *)
 Theorem C09_late_reply_inert : forall c s r x l s', reach c s -> nth_error (rcvs s) r = Some x ->
